@@ -4,7 +4,7 @@
    [dec_frame] / [dec_stream] model the REPAIRED marbl.Reader
    (fixes/C19-1-reader-length-wrap.diff); [dec_frame_orig] the reader as found. *)
 From Coq Require Import List NArith Bool Ascii String Arith Permutation.
-From Martian.C19 Require Import Model Proofs_Codec Proofs_Stream.
+From Martian.C19 Require Import Model Proofs_Codec Proofs_Stream Proofs_Ids.
 Import ListNotations.
 Open Scope N_scope.
 
@@ -90,10 +90,12 @@ Theorem C19_interleave_demux : forall ls out, Merge ls out ->
 Proof. exact merge_demux. Qed.
 Print Assumptions C19_interleave_demux.
 
-(* Messages with distinct (wire id, type), logged concurrently in any
-   schedule: the byte stream decodes to whole frames, nothing torn, and per
-   (id, type) to exactly the frames of that message. *)
-Theorem C19_concurrent_stream : forall ms ls fs,
+(* Messages logged concurrently in any schedule: the byte stream decodes to
+   whole frames, nothing torn, and per (id, type) to exactly the frames of
+   that message.  PARTIAL: the guard [NoDup (map mkey ms)] is over the WIRE
+   ids (first 8 bytes of the ID given to LogRequest/LogResponse); it excludes
+   messages whose IDs differ only after the 8th byte (see _refuted below). *)
+Theorem C19_concurrent_stream_partial : forall ms ls fs,
   NoDup (map mkey ms) -> Forall wf_msg ms ->
   Forall2 msg_spec ms ls -> Merge ls fs ->
   dec_stream (enc_stream fs) = (fs, FinErr EEof) /\ stream_spec ms fs.
@@ -102,7 +104,20 @@ Proof.
   - exact (logged_stream_decodes ms ls fs Hwf Hspec Hmerge).
   - exact (logged_stream_demux ms ls fs Hnd Hspec Hmerge).
 Qed.
-Print Assumptions C19_concurrent_stream.
+Print Assumptions C19_concurrent_stream_partial.
+
+(* Without that guard the statement is false for message IDs as the caller
+   knows them: marbl.Modifier logs under 16-character context IDs, newFrame
+   keeps id[:8].  Two distinct IDs, same wire id: the demultiplexed frames
+   are those of neither message. *)
+Theorem C19_concurrent_stream_refuted : exists id1 id2 m1 m2 fs,
+  id1 <> id2
+  /\ wire_id id1 = Some (m_id m1) /\ wire_id id2 = Some (m_id m2) /\ m_mt m1 = m_mt m2
+  /\ wf_msg m1 /\ wf_msg m2
+  /\ Merge [msg_frames m1 (m_hdrs m1); msg_frames m2 (m_hdrs m2)] fs
+  /\ ~ stream_spec [m1; m2] fs.
+Proof. exists tid1, tid2, tm1, tm2, tfs. exact id_truncation_refutes_demux. Qed.
+Print Assumptions C19_concurrent_stream_refuted.
 
 (* ---- the frame reader on arbitrary bytes -------------------------- *)
 
@@ -148,7 +163,7 @@ Print Assumptions C19_passthrough_oracle_is_the_property.
 
 (* ---- non-vacuity -------------------------------------------------- *)
 
-Open Scope string_scope.
+Local Open Scope string_scope.
 Definition ex_id1 : bytes := s "0000000a".
 Definition ex_id2 : bytes := s "0000000b".
 Definition ex_m1 : msg :=
